@@ -88,7 +88,13 @@ claim("C16", "taint/dominance of the import-path sanitiser with symbolic evaluat
       "re-enters getOrAdd with no owner test (genuine hang, known finding). Which other strings the sanitiser lets through (whitespace, absolute "
       "forms), symlinks and equal values across spellings are not decided.", NOTE, "DESIGN.md §3 C16")
 
-for pid in ["C02","C04","C05","C07","C09","C12","C13"]:
+claim("C09", "error-discipline and merge-discipline checks over every Pattern.Bind call site (go/ssa def-use, dominance), data-dependence of the agreement test",
+      "Decides the error and merge discipline of pattern matching: (R09a) at each of the 19 Bind call sites the error is passed through or tested "
+      "and the bound scope is used only on the nil branch; (R09b) composite patterns combine sub-bindings only through MatchedUpdate/MatchedWith "
+      "with the error propagated; (R09c) the agreement test on repeated names must be extensional (it is String()-based today: known finding). "
+      "Which values a pattern matches (index arithmetic over offsets and holes, rest capture) is value-level and not decided.", NOTE, "DESIGN.md §3 C09")
+
+for pid in ["C02","C04","C05","C07","C12","C13"]:
     na(pid, "check under construction in this session (see DESIGN.md §3); not claimed until its rules are registered")
 na("C14", "agreement of a hand-written array matcher with strings/bytes over all sequences is a relation between runtime values computed by "
           "loops with data-dependent indices; no sound structural clause with teeth exists (DESIGN.md §3 C14)")
